@@ -2329,11 +2329,34 @@ class Problem(object, metaclass=ProblemMetaclass):
                                   "in the case is not found in the model.")
 
         if outputs:
+            if case_is_dict:
+                case_abs = {}
+            else:
+                # the keys of case.outputs are promoted names in the namespace of the requester that
+                # recorded the case (a recorder attached to a subsystem names them relative to that
+                # subsystem); the absolute names recorded with the case identify the variables
+                case_abs = {}
+                for abs_name in outputs.absolute_names():
+                    case_abs.setdefault(outputs._abs2prom.get(abs_name, abs_name), []).append(abs_name)
+
             for name in outputs:
                 if set_later(name):
                     continue
 
-                if resolver.is_prom(name):
+                abs_names = [n for n in case_abs.get(name, ()) if resolver.is_abs(n, 'output')]
+                if abs_names:
+                    for abs_name in abs_names:
+                        if set_later(abs_name):
+                            continue
+
+                        val = outputs[abs_name]
+                        if model.comm.size > 1 and resolver.flags(abs_name) & DISTRIBUTED:
+                            sizes = model._var_sizes['output'][:, abs2idx[abs_name]]
+                            model.set_val(abs_name, scatter_dist_to_local(val, model.comm, sizes))
+                        else:
+                            model.set_val(abs_name, val)
+
+                elif resolver.is_prom(name):
                     if case_is_dict:
                         val = outputs[name]['val']
                     else:
